@@ -7,3 +7,4 @@ pub mod lcd;
 pub mod bus;
 pub mod intc;
 pub mod ime;
+pub mod header;
